@@ -14,6 +14,7 @@ package main
 import (
 	"bytes"
 	"fmt"
+	"math/big"
 	"strings"
 
 	"go.dedis.ch/kyber/v4"
@@ -49,7 +50,7 @@ func (c *caseBuf) flush() {
 		return
 	}
 	cf := c.cf
-	if strings.HasPrefix(c.kind, "CPoint # 0") || strings.HasPrefix(c.kind, "CPoint # 1") {
+	if strings.HasPrefix(c.kind, "CPoint # 0") || strings.HasPrefix(c.kind, "CPoint # 1") || strings.HasPrefix(c.kind, "CEdGen") || strings.HasPrefix(c.kind, "CResidue") {
 		cf = c.cfh
 	}
 	cf.Items = append(cf.Items, fmt.Sprintf("%s %s", strings.Replace(c.kind, "#", fmt.Sprint(c.id), 1), vh.CoqList(c.its)))
@@ -101,7 +102,7 @@ func main() {
 	if o.Search {
 		nvalid, nflip = 16, 128
 	}
-	groups := append(grpprog.Groups(), extraGroups()...)
+	groups := append(grpprog.Groups(), extraGroups(rng.Fork(), o.Thorough, rep)...)
 	// twist coefficients of the BN curves from the generators' encodings
 	bnTwist := map[string]fp2{}
 	for _, in := range groups {
@@ -113,6 +114,11 @@ func main() {
 			}
 			bnTwist[strings.TrimSuffix(in.Name, ".G2")] = bnG2Coeff(gen, p)
 		}
+	}
+	modelBudget := map[string]int{} // expensive model evaluations spent per parameterised instance
+	edBudget, resBudget := 45, 80
+	if o.Thorough {
+		edBudget, resBudget = 400, 600
 	}
 	blsDecoders := map[string][]grpprog.Inst{} // "G1" -> the three back-ends
 	for _, in := range groups {
@@ -129,10 +135,17 @@ func main() {
 		r := rng.Fork()
 		size := in.G.PointLen()
 		nv := nvalid
+		nf := nflip
 		if size > 200 { // GT: 384/576-byte encodings
 			nv = 2
 		}
-		ins := pointInputs(r, in, o.Thorough, nv, nflip)
+		if lightGroup[in.Name] {
+			nv, nf = 2, nflip/4
+			if o.Thorough {
+				nv, nf = 4, nflip/4
+			}
+		}
+		ins := pointInputs(r, in, o.Thorough && !lightGroup[in.Name], nv, nf)
 		offSub := map[string]bool{}
 		if strings.HasSuffix(in.Name, ".G1") && size == 48 {
 			for _, b := range blsG1OffSubgroup(r, nv) {
@@ -169,6 +182,32 @@ func main() {
 			}
 			if isRef && !o.Search {
 				cb.add(fmt.Sprintf("CPoint # %d", gi), "("+vh.CoqBytes(x.b)+", "+obsTerm(oc)+")")
+			}
+			// parameterised instances: their own exact models (the expensive items are sampled)
+			if !o.Search {
+				item := "(" + vh.CoqBytes(x.b) + ", " + obsTerm(oc) + ")"
+				if ep, ok := edParams[in.Name]; ok {
+					if len(x.b) != size || modelBudget[in.Name] < edBudget {
+						if len(x.b) == size {
+							modelBudget[in.Name]++
+						}
+						cb.add(fmt.Sprintf("CEdGen # %s %s %s %d", vh.CoqZ(ep.p), vh.CoqZ(ep.a), vh.CoqZ(ep.d), size), item)
+					}
+				}
+				rp, isRes := resParams[in.Name]
+				if in.Name == "qr512" {
+					rp, isRes = resParam{pQR512, qQR512, big.NewInt(2)}, true
+				}
+				if isRes {
+					v := new(big.Int).SetBytes(x.b)
+					inRange := v.Sign() > 0 && v.Cmp(rp.P) < 0
+					if !inRange || modelBudget[in.Name] < resBudget {
+						if inRange {
+							modelBudget[in.Name]++
+						}
+						cb.add(fmt.Sprintf("CResidue # %s %s %d", vh.CoqZ(rp.P), vh.CoqZ(rp.Q), size), item)
+					}
+				}
 			}
 			if !oc.ok || oc.panic != "" {
 				continue
@@ -250,25 +289,33 @@ func main() {
 
 	// ------------------------------------------------------------ scalars
 	seenScalar := map[string]bool{}
-	for _, in := range groups {
-		if strings.HasSuffix(in.Name, ".G2") || strings.HasSuffix(in.Name, ".GT") || in.Name == "ed25519+vartime" {
+	for _, in := range append(append([]grpprog.Inst{}, groups...), scalarRings(rng.Fork(), o.Thorough)...) {
+		if strings.HasSuffix(in.Name, ".G2") || strings.HasSuffix(in.Name, ".GT") || in.Name == "ed25519+vartime" || noScalar[in.Name] {
 			continue
 		}
 		r := rng.Fork()
 		g := in.G
 		name := strings.TrimSuffix(in.Name, ".G1") + ".scalar"
-		if seenScalar[name] {
-			continue
-		}
-		seenScalar[name] = true
 		size := g.ScalarLen()
 		q := grpprog.Order(g)
+		// one run per scalar implementation and modulus
+		skey := fmt.Sprintf("%T/%s/%v", g.Scalar(), q.String(), g.Scalar().ByteOrder())
+		if seenScalar[skey] {
+			continue
+		}
+		seenScalar[skey] = true
 		le := g.Scalar().ByteOrder() == kyber.LittleEndian
 		ns := 12
 		if o.Thorough {
 			ns = 60
 		}
-		for _, x := range scalarInputs(r, g, o.Thorough, ns) {
+		if lightGroup[in.Name] {
+			ns = ns / 2
+			sampleLengths = true
+		}
+		sins := scalarInputs(r, g, o.Thorough && !lightGroup[in.Name], ns)
+		sampleLengths = false
+		for _, x := range sins {
 			oc := decodeScalar(g, x.b)
 			rep.Count(name+"/"+vh.Hex(x.b), len(x.b) == size)
 			verdict := "err"
@@ -323,8 +370,8 @@ func main() {
 	cb.flush()
 
 	if !o.Search {
-		vh.WriteShards(o.Out, "c04e", cfh, 5, rep)
-		vh.WriteShards(o.Out, "c04", cf, 24, rep)
+		vh.WriteShards(o.Out, "c04e", cfh, 7, rep)
+		vh.WriteShards(o.Out, "c04", cf, 30, rep)
 	}
 	rep.Write(o.Out)
 }
